@@ -96,7 +96,7 @@ PROPS = {
         "assumptions": [SAMPLED, "burst interleavings are sampled by the Go scheduler, not enumerated"],
         "guards": ["some-accepted", "replay-of-accepted", "reload-between", "boundary-instant"],
         "parts": [{"engine": "front", "test": "TestProp_C09_Replay", "quick": 4000, "thorough": 200000, "shards": {"quick": 8}},
-                  {"engine": "front", "test": "TestProp_C09_ManyNonces", "quick": 16, "thorough": 400, "shards": {"quick": 8}}],
+                  {"engine": "front", "test": "TestProp_C09_ManyNonces", "quick": 32, "thorough": 400, "shards": {"quick": 8}}],
     },
     "C11": {
         "rule": "configs as text: global pull_api tokens (0-3), per-route pull tokens (0-3) on 1-3 pull routes, admin tokens (0-2), separate / prefixed / shared "
